@@ -344,3 +344,40 @@ contract('odml/property.py::BaseProperty.clone',
          props=('C11', 'C03'),
          note='the copy is a new detached Property with the same name, a new value list, the same id iff keep_id; '
               'no object that existed before is modified; Inv holds (the copy is a well-formed root)')
+
+
+# ---- C13: merge pairs source and destination children through contains() --------------------------
+contract('odml/base.py::Sectionable.contains',
+         types={'self': ('BaseSection', 'BaseDocument'), 'obj': 'BaseSection'}, pure=True,
+         requires='(attr(obj, "type", "BaseSection") is None or is_str(attr(obj, "type", "BaseSection"))) and all(attr(item(field(self, "_sections"), j), "type", "BaseSection") is None or is_str(attr(item(field(self, "_sections"), j), "type", "BaseSection")) for j in range(llen(field(self, "_sections"))))',
+         ensures=['implies(result is not None, listed(field(self, "_sections"), result))',
+                  'implies(result is not None, field(result, "_name") == field(obj, "_name"))',
+                  'implies(result is not None, attr(result, "type", "BaseSection") == attr(obj, "type", "BaseSection"))',
+                  'implies(result is None, all(not (field(item(field(self, "_sections"), j), "_name") == field(obj, "_name") and '
+                  'attr(item(field(self, "_sections"), j), "type", "BaseSection") == attr(obj, "type", "BaseSection")) '
+                  'for j in range(llen(field(self, "_sections")))))'],
+         raises={},
+         invariants={0: 'all(not (field(item(_it, j), "_name") == field(obj, "_name") and '
+                        'attr(item(_it, j), "type", "BaseSection") == attr(obj, "type", "BaseSection")) for j in range(_i))'},
+         result_types=('BaseSection',),
+         props=('C13',),
+         note='returns the (by I6 unique) child Section with the name and type of obj, None iff there is none')
+
+contract('odml/section.py::BaseSection.contains',
+         types={'self': 'BaseSection', 'obj': ('BaseSection', 'BaseProperty')}, pure=True,
+         requires='implies(isSec(obj), (attr(obj, "type", "BaseSection") is None or is_str(attr(obj, "type", "BaseSection"))) and all(attr(item(field(self, "_sections"), j), "type", "BaseSection") is None or is_str(attr(item(field(self, "_sections"), j), "type", "BaseSection")) for j in range(llen(field(self, "_sections")))))',
+         ensures=['implies(isSec(obj) and result is not None, listed(field(self, "_sections"), result) and '
+                  'field(result, "_name") == field(obj, "_name") and attr(result, "type", "BaseSection") == attr(obj, "type", "BaseSection"))',
+                  'implies(isSec(obj) and result is None, all(not (field(item(field(self, "_sections"), j), "_name") == field(obj, "_name") and '
+                  'attr(item(field(self, "_sections"), j), "type", "BaseSection") == attr(obj, "type", "BaseSection")) '
+                  'for j in range(llen(field(self, "_sections")))))',
+                  'implies(isProp(obj) and result is not None, listed(field(self, "_props"), result) and '
+                  'field(result, "_name") == field(obj, "_name"))',
+                  'implies(isProp(obj) and result is None, all(field(item(field(self, "_props"), j), "_name") != field(obj, "_name") '
+                  'for j in range(llen(field(self, "_props")))))'],
+         raises={},
+         invariants={0: 'all(field(item(_it, j), "_name") != field(obj, "_name") for j in range(_i))'},
+         result_types=('BaseSection', 'BaseProperty'),
+         props=('C13',),
+         note='a Section is paired with the child Section of its name and type, a Property with the child Property of its '
+              'name; None iff there is no such child')
